@@ -4,7 +4,7 @@ import re
 
 from ..core import sym
 from ..core.expand import u, call_name, get_arg, bind_args, Expander, is_marker, phi_alternatives
-from ..core.loader import Inconclusive, const_value, parents
+from ..core.loader import Inconclusive, AnchorMissing, const_value, parents
 from .common import (returns, all_nodes, callee, strip_shape, calls_in, guards_of, stmt_of, kw, find_assignments,
                      dict_literal_items, in_loop)
 
@@ -244,16 +244,25 @@ def rule_slots(ck):
             got.append((m[0][0] or m[0][1]) if m else '?')
         (o.ok('(year, month, day, hour, minute, second)') if got == fields else o.fail('datetime fields are %s, expected %s' % (got, fields)))
     # ndk hypocentre fields
-    n = P.func(R + 'ndk.<locals>._read_lines')
     want = {'hypo_lat': (27, 33), 'hypo_lng': (34, 41), 'hypo_depth_in_km': (42, 47)}
-    for st in all_nodes(n):
-        if isinstance(st, ast.Assign) and isinstance(st.targets[0], ast.Subscript) and const_value(st.targets[0].slice) in want:
-            key = const_value(st.targets[0].slice)
-            o = ck.ob('C19-D2.ndk', n, st, st)
-            sl = [x for x in ast.walk(st.value) if isinstance(x, ast.Subscript) and isinstance(x.slice, ast.Slice)]
-            got = (const_value(sl[0].slice.lower), const_value(sl[0].slice.upper)) if sl else None
-            src = u(sl[0].value) if sl else '?'
-            (o.ok() if got == want[key] and src == 'line1' else o.fail('%s is read from %s[%s] (NDK hypocentre line: %s at %s)' % (key, src, got, key, want[key])))
+    found_keys = set()
+    for n in _ndk_scope(P):
+        # the parameter that holds the first (hypocentre) line of a record: the one the date / time / hypocentre fields are cut from
+        for st in all_nodes(n):
+            if isinstance(st, ast.Assign) and isinstance(st.targets[0], ast.Subscript) and const_value(st.targets[0].slice) in want:
+                key = const_value(st.targets[0].slice)
+                found_keys.add(key)
+                o = ck.ob('C19-D2.ndk', n, st, st)
+                sl = [x for x in ast.walk(st.value) if isinstance(x, ast.Subscript) and isinstance(x.slice, ast.Slice)]
+                got = (const_value(sl[0].slice.lower), const_value(sl[0].slice.upper)) if sl else None
+                src = u(sl[0].value) if sl else '?'
+                # the same source line as the record's date field (columns 6-15 of line 1)
+                date_src = [u(x.value) for s2 in all_nodes(n) if isinstance(s2, ast.Assign) and isinstance(s2.targets[0], ast.Subscript)
+                            and const_value(s2.targets[0].slice) == 'date' for x in ast.walk(s2.value) if isinstance(x, ast.Subscript) and isinstance(x.slice, ast.Slice)]
+                same_line = (src == 'line1') or (bool(date_src) and src == date_src[0])
+                (o.ok() if got == want[key] and same_line else o.fail('%s is read from %s[%s] (NDK hypocentre line: %s at %s)' % (key, src, got, key, want[key])))
+    if not found_keys:
+        raise AnchorMissing('no function of the NDK reader stores the hypocentre fields %s' % sorted(want))
 
 
 VALUE_FIELDS = ('lat', 'lon', 'depth', 'mw', 'mag', 'magnitude', 'latitude', 'longitude')
@@ -303,6 +312,28 @@ def rule_value_width(ck):
     ck.extra['typed_value_columns'] = n
 
 
+def _ndk_scope(P):
+    """the functions that make up the NDK reader: `ndk`, the functions nested in it, and the module-level functions of readers.py it
+    reaches through calls (helpers moved out of it)"""
+    root = P.func(R + 'ndk')
+    out, todo = [], [root]
+    while todo:
+        g = todo.pop()
+        if g in out:
+            continue
+        out.append(g)
+        for h in P.funcs.values():
+            if h.parent is g and h not in out:
+                todo.append(h)
+        for c in all_nodes(g):
+            if isinstance(c, ast.Call):
+                q = callee(P, g, c)
+                h = P.funcs.get(q) if q else None
+                if h is not None and h.module is root.module and h not in out and h.cls is None:
+                    todo.append(h)
+    return out
+
+
 def _zmap_enums(P, z):
     """the class whose members name the ZMAP columns: nested in the reader or at module level, recognised by its use -
     `<row>[<Class>.<Member>]` subscripts inside the reader"""
@@ -344,7 +375,13 @@ def rule_records(ck):
     """every line of an NDK text - the last one with or without a line terminator - reaches the five-line grouping"""
     P = ck.prog
     ck.clause('D6')
-    f = P.func(R + 'ndk.<locals>.lines_iter')
+    f = P.funcs.get(R + 'ndk.<locals>.lines_iter')
+    if f is None:
+        # found by role: the generator among the functions of the NDK reader
+        gens = [g_ for g_ in _ndk_scope(P) if any(isinstance(x, (ast.Yield, ast.YieldFrom)) for x in all_nodes(g_))]
+        if len(gens) != 1:
+            raise AnchorMissing('the line iterator of the NDK reader (nested lines_iter or a module-level generator it calls) was not found')
+        f = gens[0]
     o = ck.ob('C19-D6.lines', f, 'NDK text split into lines without losing the last one', f.node)
     ys = [n for n in all_nodes(f) if isinstance(n, (ast.Yield, ast.YieldFrom))]
     if ys:
